@@ -5,7 +5,12 @@
 use vstd::prelude::*;
 use bytes::{Buf, BufMut, BytesMut};
 use std::io::Read;
+use std::borrow::Cow;
+use vstd::std_specs::iter::IteratorSpec;
 verus!{
+/// usize is 64 bit on the targets this is verified for
+global size_of usize == 8;
+
 #[verifier::external_type_specification]
 #[verifier::external_body]
 pub struct ExBytesMut(BytesMut);
@@ -121,4 +126,86 @@ pub broadcast proof fn lemma_sub_sub(s: Seq<u8>, a: int, b: int, c: int, d: int)
     requires 0 <= a <= b <= s.len(), 0 <= c <= d <= b - a
     ensures #[trigger] s.subrange(a, b).subrange(c, d) == s.subrange(a + c, a + d)
 { assert(s.subrange(a, b).subrange(c, d) =~= s.subrange(a + c, a + d)); }
+
+// ------------------------------------------------------------------------------------------ str / String / iterators
+/// result of asking pattern `p` about one char (closures: the call's postcondition; char slices: membership; a str: n/a)
+pub uninterp spec fn pat_result<P>(p: P, c: char, b: bool) -> bool;
+pub broadcast axiom fn pat_result_fn<F: FnMut(char) -> bool>(p: F, c: char, b: bool)
+    ensures #[trigger] pat_result::<F>(p, c, b) == call_ensures(p, (c,), b);
+pub broadcast axiom fn pat_result_slice(p: &[char], c: char, b: bool)
+    ensures #[trigger] pat_result::<&[char]>(p, c, b) == (b == p@.contains(c));
+#[verifier::allow(undeclared_external_trait)]
+pub assume_specification<P: std::str::pattern::Pattern> [str::contains] (s: &str, p: P) -> (r: bool)
+    ensures r ==> exists|i: int| 0 <= i < s@.len() && pat_result(p, #[trigger] s@[i], true),
+            !r ==> forall|i: int| 0 <= i < s@.len() ==> pat_result(p, #[trigger] s@[i], false);
+/// prefix test for a `&str` pattern
+pub uninterp spec fn pat_prefix<P>(p: P, s: Seq<char>) -> bool;
+pub broadcast axiom fn pat_prefix_str(p: &str, s: Seq<char>)
+    ensures #[trigger] pat_prefix::<&str>(p, s) == (p@.len() <= s.len() && s.subrange(0, p@.len() as int) == p@);
+#[verifier::allow(undeclared_external_trait)]
+pub assume_specification<P: std::str::pattern::Pattern> [str::starts_with] (s: &str, p: P) -> (r: bool)
+    ensures r == pat_prefix(p, s@);
+pub assume_specification [std::string::String::with_capacity] (n: usize) -> (r: std::string::String)
+    ensures r@ == Seq::<char>::empty();
+pub assume_specification [char::is_ascii_alphabetic] (c: &char) -> (r: bool)
+    ensures r == (('a' <= *c && *c <= 'z') || ('A' <= *c && *c <= 'Z'));
+
+pub open spec fn cow_view(c: Cow<'_, str>) -> Seq<char> { match c { Cow::Borrowed(s) => s@, Cow::Owned(s) => s@ } }
+pub uninterp spec fn cow_ref<'a, 'b, B: ?Sized + ToOwned>(c: &'b Cow<'a, B>) -> &'b B;
+pub broadcast axiom fn cow_ref_str<'a, 'b>(c: &'b Cow<'a, str>) ensures #[trigger] cow_ref::<str>(c)@ == cow_view(*c);
+pub assume_specification<'a, 'b, B: ?Sized + ToOwned> [<Cow<'a, B> as core::ops::Deref>::deref] (c: &'b Cow<'a, B>) -> (r: &'b B)
+    ensures r == cow_ref(c);
+
+/// N10 wrapper for `str::len` (vstd's own specification says nothing about the value): byte length; a `str` in memory is
+/// shorter than 2^62 bytes (address-space bound of 64-bit targets) and has at most one char per byte
+#[verifier::external_body]
+pub fn vx_str_len(s: &str) -> (r: usize)
+    ensures (r as int) < 0x4000_0000_0000_0000, s@.len() <= r, r == vstd::utf8::encode_utf8(s@).len()
+{ s.len() }
+
+/// `Filter::count`: at most the number of inner elements; 0 iff the predicate said `false` for every element
+pub assume_specification<I: Iterator, P: FnMut(&I::Item) -> bool> [<std::iter::Filter<I, P> as Iterator>::count] (it: std::iter::Filter<I, P>) -> (r: usize)
+    ensures
+        r <= vstd::std_specs::iter::filter_iter(it).remaining().len(),
+        r == 0 ==> forall|i: int| 0 <= i < vstd::std_specs::iter::filter_iter(it).remaining().len() ==> call_ensures(vstd::std_specs::iter::filter_fun(it), (&#[trigger] vstd::std_specs::iter::filter_iter(it).remaining()[i],), false),
+        r > 0 ==> exists|i: int| 0 <= i < vstd::std_specs::iter::filter_iter(it).remaining().len() && call_ensures(vstd::std_specs::iter::filter_fun(it), (&#[trigger] vstd::std_specs::iter::filter_iter(it).remaining()[i],), true);
+
+/// `slice::Iter::position`: index of the first element the predicate accepts
+pub assume_specification<'a, T, P: FnMut(&'a T) -> bool> [<std::slice::Iter<'a, T> as Iterator>::position::<P>] (it: &mut std::slice::Iter<'a, T>, p: P) -> (r: Option<usize>)
+    where std::slice::Iter<'a, T>: Sized,
+    ensures
+        match r {
+            Some(i) => i < old(it).remaining().len() && call_ensures(p, (old(it).remaining()[i as int],), true)
+                 && forall|j: int| 0 <= j < i ==> call_ensures(p, (#[trigger] old(it).remaining()[j],), false),
+            None => forall|j: int| 0 <= j < old(it).remaining().len() ==> call_ensures(p, (#[trigger] old(it).remaining()[j],), false),
+        };
+
+#[verifier::external_type_specification]
+#[verifier::external_body]
+pub struct ExCharIndices<'a>(std::str::CharIndices<'a>);
+/// the (byte index, char) pairs a CharIndices iterator still has to yield
+pub uninterp spec fn ci_seq<'a>(it: &std::str::CharIndices<'a>) -> Seq<(usize, char)>;
+pub assume_specification<'a> [str::char_indices] (s: &'a str) -> (r: std::str::CharIndices<'a>)
+    ensures ci_seq(&r).len() == s@.len(), forall|k: int| 0 <= k < s@.len() ==> (#[trigger] ci_seq(&r)[k]).1 == s@[k],
+            s@.len() > 0 ==> ci_seq(&r)[0].0 == 0,
+            forall|k: int| 1 <= k < s@.len() ==> (#[trigger] ci_seq(&r)[k]).0 > 0;
+/// N10 wrapper for the provided method `Iterator::find` on CharIndices: first pair the predicate accepts
+#[verifier::external_body]
+pub fn vx_ci_find<'a, P: FnMut(&(usize, char)) -> bool>(it: std::str::CharIndices<'a>, p: P) -> (r: Option<(usize, char)>)
+    ensures
+        match r {
+            Some(x) => exists|k: int| 0 <= k < ci_seq(&it).len() && ci_seq(&it)[k] == x && call_ensures(p, (&ci_seq(&it)[k],), true)
+                 && forall|j: int| 0 <= j < k ==> call_ensures(p, (&#[trigger] ci_seq(&it)[j],), false),
+            None => forall|j: int| 0 <= j < ci_seq(&it).len() ==> call_ensures(p, (&#[trigger] ci_seq(&it)[j],), false),
+        }
+{ let mut it = it; it.find(p) }
+
+// ------------------------------------------------------------------------------------------ bytes::Bytes / conversions
+#[verifier::external_type_specification]
+#[verifier::external_body]
+pub struct ExBytes(bytes::Bytes);
+pub assume_specification [bytes::Bytes::copy_from_slice] (data: &[u8]) -> bytes::Bytes;
+pub assume_specification [BytesMut::freeze] (b: BytesMut) -> bytes::Bytes;
+pub assume_specification<'a> [<BytesMut as From<&'a str>>::from] (s: &'a str) -> (r: BytesMut)
+    ensures bm_view(&r) == vstd::utf8::encode_utf8(s@);
 }
